@@ -28,7 +28,8 @@ RULE = ('default sets {plain, renamed 1->1, one deprecated name split into '
         'or a deprecated name.')
 RULE += (
          ' Value kind aliasprefix: an override under a deprecated name that'
-         " mentions a rule whose name merely starts with the successor's.")
+         " mentions a rule whose name merely starts with the successor's."
+         ' Tool variant upgrade-2ns: the defaults come from two namespaces.')
 ASSUMPTIONS = ['default configuration (enforce_new_defaults on); no scope '
                'types; value menu instead of arbitrary rules']
 
@@ -155,7 +156,7 @@ def plan(tier, seed):
     jobs = []
     for kind in KINDS:
         for tool in ('convert', 'upgrade-yaml', 'upgrade-json', 'generator',
-                     'redundant'):
+                     'redundant', 'upgrade-2ns'):
             for i in range(4 if tier == 'quick' else 24):
                 jobs.append({'space': tool, 'kind': kind, 'shard': i,
                              'of': 4 if tier == 'quick' else 24,
@@ -267,11 +268,20 @@ def run(job, seed):
             elif tool.startswith('upgrade'):
                 fmt = tool.split('-')[1]
                 w.write('in.yaml', world.dumps_policy(f))
-                with world.entry_points(policies={'ns': defaults}):
+                nss = {'ns': defaults}
+                if fmt == '2ns':
+                    # the service's defaults come from two namespaces
+                    fmt = 'yaml'
+                    h = (len(defaults) + 1) // 2
+                    nss = {'ns_a': defaults[:h], 'ns_b': defaults[h:]}
+                ns_args = []
+                for n in sorted(nss):
+                    ns_args += ['--namespace', n]
+                with world.entry_points(policies=nss):
                     err, _ = run_tool(
                         gen.upgrade_policy,
-                        ['--policy', w.path('in.yaml'), '--namespace', 'ns',
-                         '--output-file', w.path('out'), '--format', fmt],
+                        ['--policy', w.path('in.yaml')] + ns_args +
+                        ['--output-file', w.path('out'), '--format', fmt],
                         conf=cfg.ConfigOpts())
                 acc.ev()
                 if err:
